@@ -466,6 +466,9 @@ func (f Float) format(buf *strings.Builder, conv byte) {
 	}
 
 	// %[eEfF] use 6-digit precision
+	if conv == 'F' {
+		conv = 'f' // strconv has no 'F'; finite numbers contain no letters
+	}
 	buf.WriteString(strconv.FormatFloat(ff, conv, 6, 64))
 }
 
